@@ -164,6 +164,37 @@ def run_digitize(case, ctx):
             if n >= 3:
                 ctx.nontriv("digitize", cfg)
             ctx.cls("bins=" + kind)
+    # ---- history in one process: trees for both directions of the SAME edges, in both orders; a tree already handed
+    # out keeps its predictions when the tree of the other direction is built afterwards
+    for kind in ("regular", "irregular"):
+        up = make_bins(rng, n, kind)
+        if len(up) != n or n < 2:
+            continue
+        down = up[::-1].copy()
+        x = numpy.concatenate([up, f32((up[1:] + up[:-1]) / 2), f32([up[0] - 1, up[-1] + 1])])
+        for first, second, fname in ((down, up, "descending-then-ascending"), (up, down, "ascending-then-descending")):
+            cfg = {"n_bins": n, "kind": kind, "history": fname}
+            try:
+                t1 = digitize2tree(first.copy(), right=True)
+                p1 = t1.predict(x.reshape(-1, 1))
+                t2 = digitize2tree(second.copy(), right=True)
+                p2 = t2.predict(x.reshape(-1, 1))
+                p1_again = t1.predict(x.reshape(-1, 1))
+                t3 = digitize2tree(first.copy(), right=True)
+                p3 = t3.predict(x.reshape(-1, 1))
+            except Exception as e:
+                ctx.violation("C12/digitize2tree/raised/%s/history" % type(e).__name__, str(e)[:150], cfg=cfg)
+                continue
+            ctx.hit("digitize.direction_history")
+            e1, e2 = numpy.digitize(x, first, right=True), numpy.digitize(x, second, right=True)
+            for what, got, exp_ in (("first tree", p1, e1), ("second tree", p2, e2),
+                                    ("first tree after the second was built", p1_again, e1),
+                                    ("first direction built again", p3, e1)):
+                if not numpy.array_equal(got, exp_):
+                    ctx.violation("C12/digitize2tree/differs-from-numpy/direction-history", "%s: %s differs from "
+                                  "numpy.digitize (%d of %d points)" % (fname, what, int((got != exp_).sum()), len(x)),
+                                  cfg=cfg)
+                    break
     ctx.sample({"n_bins": n, "example_bins": make_bins(numpy.random.RandomState(0), min(n, 4), "irregular")})
 
 
